@@ -13,7 +13,7 @@ from ..flow import call_name, norm
 from ..index import AnalysisError, walk_local
 from ..lib import cfg_of, defs_of, edge_leads_only_to_raise, witness
 from .C01 import (additions, check_wrapper_order_rule, closure_defs, conditional_in, enclosing_iteration, facts, find_expr,
-                  find_stores, is_signature, known, names_it, one_per_item, resolve, returned_def, rnorm, signature_walk)
+                  find_stores, is_signature, known, names_it, one_per_item, reaching_defs, resolve, returned_def, rnorm, signature_view, signature_walk)
 
 RH = "pint.registry_helpers"
 
@@ -328,22 +328,30 @@ def run(ck, ix, tier):
     convs = [x for x in convs if len(x.args) == 3]
     cdefs_ = defs_of(c)
 
-    def sources(e):
-        """[(value, site)]: what the converted object `e` can be and where that is decided - `e` itself, or, for a name
-        assigned on several branches of this pass (quantity = values[i] / quantity = parse(values[i])), every assignment"""
+    cfgc = cfg_of(c)
+    qty_edges = shape.guard_edges(cfgc, is_qty, want=True)
+
+    def sources(e, use):
+        """[(value, site, quantity_only)]: what the converted object `e` can be where `use` executes and where that is
+        decided - `e` itself, or, for a name (re)assigned inside this pass (quantity = values[i] on one branch,
+        value = parse(value) on another), every assignment that reaches `use`; quantity_only = that assignment reaches
+        `use` only over an edge on which the value is known to be a Quantity"""
         r = resolve(e, c.node)
-        if isinstance(r, ast.Name) and r.id not in cdefs_.params and len(cdefs_.defs.get(r.id, [])) > 1 and all(k_ == "assign" and any(st_ is y for y in ast.walk(l3)) for _, k_, st_ in cdefs_.defs[r.id]):
-            return [(resolve(v_, c.node), st_) for v_, _, st_ in cdefs_.defs[r.id]]
-        return [(r, e)]
+        if isinstance(r, ast.Name) and r.id not in cdefs_.params and len(cdefs_.defs.get(r.id, [])) > 1:
+            ds = reaching_defs(c, r.id, use)
+            if ds and all(k_ == "assign" and any(st_ is y for y in ast.walk(l3)) for _, k_, st_ in ds):
+                gated_ = {id(st_) for _, _, st_ in reaching_defs(c, r.id, use, avoid_edges=qty_edges)}
+                return [(resolve(v_, c.node), st_, id(st_) not in gated_) for v_, _, st_ in ds]
+        return [(r, e, False)]
     from_qty = False
     for x in convs:
         m_, u_, d_ = x.args
         same = isinstance(m_, ast.Attribute) or isinstance(resolve(m_, c.node), ast.Attribute)
         m_, u_ = (a_ if isinstance(a_, ast.Attribute) else resolve(a_, c.node) for a_ in (m_, u_))
         src_ok = same and isinstance(m_, ast.Attribute) and isinstance(u_, ast.Attribute) and m_.attr == "_magnitude" and u_.attr == "_units" and rnorm(m_.value, c.node) == rnorm(u_.value, c.node)
-        for v_, site in (sources(m_.value) if src_ok else []):
+        for v_, site, qty_only in (sources(m_.value, x) if src_ok else []):
             if norm(v_) == f"values[{idx}]":
-                src_ok = src_ok and shape.holds_at(site if site is not m_.value else x, c.node, is_qty, True)     # only a Quantity has ._magnitude / ._units
+                src_ok = src_ok and (qty_only or shape.holds_at(site if site is not m_.value else x, c.node, is_qty, True))     # only a Quantity has ._magnitude / ._units
                 from_qty = from_qty or src_ok
             else:
                 src_ok = src_ok and norm(v_) == f"ureg.parse_expression(values[{idx}])"
@@ -357,8 +365,7 @@ def run(ck, ix, tier):
     writes = [a_ for a_ in ast.walk(l3) if isinstance(a_, ast.Assign) and norm(a_.targets[0]) == f"values[{idx}]"]
     # a value is only replaced where it is known to be a Quantity or the mode to be strict - at the write itself, or on
     # every path that leads to it (a write shared by the Quantity branch and the parsed-string branch)
-    cfgc = cfg_of(c)
-    gated = shape.guard_edges(cfgc, is_qty, want=True) + shape.guard_edges(cfgc, is_strict, want=True)
+    gated = qty_edges + shape.guard_edges(cfgc, is_strict, want=True)
     okw = all(shape.holds_at(a_, c.node, is_qty, True) or (shape.holds_at(a_, c.node, is_strict, True) and shape.holds_at(a_, c.node, is_qty, False))
               or (bool(gated) and shape.reachable_without(cfgc, [n.id for n in cfgc.nodes if n.ast is a_], gated) is None) for a_ in writes)
     ck.check(okr and okw, "G-DOM", "_converter|strict-refuses-bare-numbers-nonstrict-passes", c.loc(l3), "strict: non-quantity, non-string values raise; non-strict: untouched",
@@ -370,11 +377,21 @@ def run(ck, ix, tier):
     npos = "len(values)"
     app = additions(c.node, "values")
     back = [st for st, b in find_stores(c.node, "kw[_P]") if isinstance(st, ast.Assign)]
-    ok = len(app) == 1 and len(back) == 1 and shape.match("kw[_P]", app[0]) is not None
+    # ... or written back in one go: kw.update(zip(<names beyond the positional ones>, values[<positional count>:]))
+    bulk = [x for x, b in find_expr(c.node, "kw.update(*_R, **_K)")]
+    ok = len(app) == 1 and len(back) + len(bulk) == 1 and shape.match("kw[_P]", app[0]) is not None
     if ok:
-        sa_, sb_ = signature_walk(app[0], c, npos), signature_walk(back[0].value, c, npos)
-        ok = sa_ is not None and sb_ is not None and sa_[2] and sb_[2] and names_it(app[0].slice, c.node, sa_[0]) and names_it(back[0].targets[0].slice, c.node, sb_[0]) \
-            and (rnorm(back[0].value, c.node) in [f"values[{i_}]" for i_ in sb_[1]] or (isinstance(back[0].value, ast.Name) and sb_[4].get(back[0].value.id) == "values"))
+        sa_ = signature_walk(app[0], c, npos)
+        ok = sa_ is not None and sa_[2] and names_it(app[0].slice, c.node, sa_[0])
+        if back:
+            sb_ = signature_walk(back[0].value, c, npos)
+            ok = ok and sb_ is not None and sb_[2] and names_it(back[0].targets[0].slice, c.node, sb_[0]) \
+                and (rnorm(back[0].value, c.node) in [f"values[{i_}]" for i_ in sb_[1]] or (isinstance(back[0].value, ast.Name) and sb_[4].get(back[0].value.id) == "values"))
+        else:
+            z = resolve(bulk[0].args[0], c.node) if len(bulk[0].args) == 1 and not bulk[0].keywords else None
+            z = z.args[0] if z is not None and shape.match("dict(zip(_N, _V))", z) is not None else z
+            view = signature_view(z.args[0], c) if z is not None and shape.match("zip(_N, _V)", z) is not None else None
+            ok = ok and view is not None and view[0] == "names" and view[1] == npos and norm(z.args[1]) == f"values[{npos}:]"
         # `len(values)` must be read before anything is appended: only through a name assigned at the top of the function
         grow = min([x.lineno for x in app] + [l.lineno for l in (l1, l2, l3)])
         ok = ok and all(getattr(getattr(x, "_parent", None), "lineno", grow) < grow and getattr(getattr(x, "_parent", None), "_parent", None) is c.node for x, _ in find_expr(c.node, "len(values)"))
@@ -386,18 +403,21 @@ def run(ck, ix, tier):
     # ------------------------------------------------------------ _apply_defaults(sig, args, kwargs)
     fa = ix.func(RH, "_apply_defaults")
     ck.analysed(fa)
-    fills = [(st, b) for st, b in find_stores(fa.node, "kwargs[_K]") if isinstance(st, ast.Assign)]
+    # the places where a default enters kwargs: `kwargs[K] = V`, or `kwargs.setdefault(K, V)` (which itself leaves a
+    # keyword that was passed alone): (site, key, value, keeps what was passed)
+    fills = [(st, st.targets[0].slice, st.value, False) for st, b in find_stores(fa.node, "kwargs[_K]") if isinstance(st, ast.Assign)]
+    fills += [(x, x.args[0], x.args[1], True) for x, b in find_expr(fa.node, "kwargs.setdefault(_K, _V)")]
     ck.floor("G-PROV", len(fills), 1, "stores into kwargs in _apply_defaults")
-    okf = True
-    for st, b in fills:
+    okf = not find_expr(fa.node, "kwargs.update(*_R, **_K)")
+    for st, key, val, keeps in fills:
         sw = signature_walk(st, fa, "len(args)")
         if sw is None:
             okf = False
             continue
         names, _index, absent, objs, _aligned = sw
-        key_ok = names_it(st.targets[0].slice, fa.node, names) and any(rnorm(st.value, fa.node) == f"{P}.default" for P in objs)
+        key_ok = names_it(key, fa.node, names) and any(rnorm(val, fa.node) == f"{P}.default" for P in objs)
         has_default = any(known(st, fa.node, pat, False) is not None for P in objs for pat in (f"{P}.default == Parameter.empty", f"{P}.default is Parameter.empty", f"Parameter.empty == {P}.default", f"{P}.default == {P}.empty", f"{P}.default is {P}.empty"))
-        not_passed = any(known(st, fa.node, f"{k_} in kwargs", False) is not None for k_ in names)
+        not_passed = keeps or any(known(st, fa.node, f"{k_} in kwargs", False) is not None for k_ in names)
         okf = okf and key_ok and absent and has_default and not_passed
     ck.check(okf, "G-PROV", "_apply_defaults|only-absent-parameters", fa.loc(), "defaults fill only parameters that were not passed", "_apply_defaults no longer restricts itself to absent parameters with a default")
 
@@ -449,7 +469,7 @@ def run(ck, ix, tier):
         if isinstance(u_, ast.Name) and depth > 0 and u_.id in gdefs.defs and u_.id not in gdefs.params:
             # a name that starts as the declared units and is replaced by the derived units where the specification is a reference
             out = set()
-            for v_, kind, st_ in gdefs.defs[u_.id]:
+            for v_, kind, st_ in reaching_defs(g, u_.id, at):
                 k = {"declared"} if (kind == "unpack0" and rnorm(v_, g.node) == "ret") else unit_cases(v_, st_, depth - 1) if kind == "assign" else None
                 if not k:
                     return None
@@ -489,13 +509,25 @@ def run(ck, ix, tier):
     helpers = {h.name: h for h in f.module.all_functions if h.parent is f}
 
     def what_is(e, at):
-        """the role of a checked expression: 'ret', or 'elements of args' / 'elements of ret' for a loop variable"""
+        """the roles of a checked expression: 'ret' itself, or, for the variable of the enclosing loop, what the loop
+        walks: 'elements of args' / 'elements of ret', 'ret' for the one-element tuple (ret,), both sides of a
+        conditional iterable"""
         if norm(e) in ("ret",):
-            return "ret"
+            return {"ret"}
         it = enclosing_iteration(at, f.node)
-        if it is not None and isinstance(e, ast.Name) and norm(it[0]) == e.id and norm(it[1]) in ("args", "ret"):
-            return f"elements of {norm(it[1])}"
-        return norm(e)
+        if it is None or not isinstance(e, ast.Name) or norm(it[0]) != e.id:
+            return {norm(e)}
+
+        def walked(x):
+            x = resolve(x, f.node) if isinstance(x, ast.Name) and x.id not in ("args", "ret") else x
+            if isinstance(x, ast.IfExp):
+                return walked(x.body) | walked(x.orelse)
+            if norm(x) in ("args", "ret"):
+                return {f"elements of {norm(x)}"}
+            if isinstance(x, (ast.Tuple, ast.List)) and len(x.elts) == 1 and norm(x.elts[0]) == "ret":
+                return {"ret"}
+            return {norm(e)}
+        return walked(it[1])
 
     def type_checks(fn_node):
         out = []
@@ -506,14 +538,14 @@ def run(ck, ix, tier):
                         out.append((a_.args[0], r))
         return out
     for v, r in type_checks(f.node):
-        checked.add(what_is(v, r))
+        checked |= what_is(v, r)
     for nm, h in helpers.items():
         params = [a_.arg for a_ in h.node.args.args]
         for v, r in type_checks(h.node):
             if norm(v) in params:
                 for c_ in walk_local(f.node):
                     if isinstance(c_, ast.Call) and isinstance(c_.func, ast.Name) and c_.func.id == nm and len(c_.args) > params.index(norm(v)):
-                        checked.add(what_is(c_.args[params.index(norm(v))], c_))
+                        checked |= what_is(c_.args[params.index(norm(v))], c_)
     ck.check({"elements of args", "ret", "elements of ret"} <= checked, "G-DOM", "wraps|specification-types-checked", f.loc(), "argument and return specifications must be str/Unit/None", f"the type check of the unit specifications is incomplete: only {sorted(checked)} are checked (args elements, ret and ret elements must be)")
 
     # ------------------------------------------------------------ check wrapper
